@@ -62,9 +62,9 @@ macro_rules! k22_disjoint {
         });
     };
 }
-//@ k22_merge_disjoint_ab props=C17 tier=quick expect=pass fns=PathAwareValue::merge :: merge of {a: x} with {b: y} (x, y any i64): Ok, the result has exactly the two keys with their values (no loss, no override)
+//@ k22_merge_disjoint_ab props=C17 tier=probe expect=pass fns=PathAwareValue::merge :: merge of {a: x} with {b: y} (x, y any i64): Ok, the result has exactly the two keys with their values (no loss, no override)
 k22_disjoint!(k22_merge_disjoint_ab, 'a', 'b');
-//@ k22_merge_disjoint_ba props=C17 tier=quick expect=pass fns=PathAwareValue::merge :: merge of {b: y} with {a: x}: same content as the other order (order of parameter files does not matter for the merged content)
+//@ k22_merge_disjoint_ba props=C17 tier=probe expect=pass fns=PathAwareValue::merge :: merge of {b: y} with {a: x}: same content as the other order (order of parameter files does not matter for the merged content)
 k22_disjoint!(k22_merge_disjoint_ba, 'b', 'a');
 
 //@ k22_merge_conflict props=C17 tier=quick expect=pass fns=PathAwareValue::merge :: merge of {a: x} with {a: y}: an error (MultipleValues), never a silent choice - also when x == y
